@@ -3,12 +3,12 @@ CONFIG = {
     "coq_dirs": ["theories/Pool"],
     "coq_targets": ["theories/Pool/Properties.vo", "theories/Pool/Corr.vo"],
     "properties_files": ["theories/Pool/Properties.v"],
-    "required_theorems": ["sectors_partition", "all_closed_all_free", "quota_conserved", "quota_monitor_accepts_model", "isolation", "write_refines_bytes", "read_refines_bytes", "file_refines_bytes", "truncate_refines_bytes", "seek_refines_regions"],
+    "required_theorems": ["sectors_partition", "all_closed_all_free", "quota_conserved", "quota_monitor_accepts_model", "isolation", "write_refines_bytes", "read_refines_bytes", "file_refines_bytes", "truncate_refines_bytes", "seek_refines_regions", "allocator_words_init", "allocator_words_refine_flat", "allocator_words_free_contig", "allocator_words_free_list"],
     "harnesses": [
         {"cmd": "pool", "cases_quick": 320, "cases_thorough": 12000, "shards_quick": 8, "shards_thorough": 32},
     ],
     "trusted_base": [
-        "hand-written model coq/theories/Pool/Model.v of block_device_backed_file_pool.go, bitmap_sector_allocator.go (flat free bitmap + nextSector; 64-bit word tricks not represented), quota_enforcing_file_pool.go; tied by correspondence harness/cmd/pool on outputs, every allocator/device/hole-source call, Len() of every file and probed quota after every operation",
+        "hand-written model coq/theories/Pool/Model.v of block_device_backed_file_pool.go, bitmap_sector_allocator.go (flat free bitmap + nextSector; the 64-bit word algorithm is transcribed separately in ProofsWords.v and proved equal to it), quota_enforcing_file_pool.go; tied by correspondence harness/cmd/pool on outputs, every allocator/device/hole-source call, Len() of every file and probed quota after every operation",
         "Go harness: fake block device / hole source / failing base pool, recording wrappers, quota probe through NewFile+Close, Gallina printer; case evaluator Pool/Corr.v (P on implementation traces)",
     ],
     "manifest": {
@@ -21,6 +21,6 @@ CONFIG = {
         "file_refines_bytes (the complete monitor p_step accepts every model trace) is proved for histories whose NewFile operations satisfy op_wf: the hole source is not longer than the file (HoleSource contract of the harness; the generator only produces such histories)",
         "offsets and sizes < 2^40 (Go int/int64 overflow is not modelled; the model uses unbounded N/nat)",
         "hole sources obey the HoleSource contract: never EOF, null bytes beyond their length, length <= file size at NewFile",
-        "uint64 shifts / bits.TrailingZeros64 of the bitmap allocator are modelled as a flat bit list (validated differentially on every allocation)",
+        "the allocator of the correspondence model is the flat bit list; its equality with the uint64 word algorithm (three scan phases, bits.TrailingZeros64, shift/mask expressions, full-word loops) is proved for the Coq transcription allocate_w/free_contig_w/free_list_w in ProofsWords.v (allocator_words_* theorems); that transcription is hand-written from bitmap_sector_allocator.go and is itself not executed against the Go code (the flat model it is proved equal to is, on every allocation)",
     ],
 }
